@@ -3,6 +3,22 @@
 // environment layers are applied through the REAL `set_env`, in the order given by the harness.
 #![allow(dead_code, unused_imports)]
 use super::*;
+// Named explicitly so that this probe does not depend on which names the parent file happens to import
+// (a clean-up of an unused import there must not break the hooked build).
+#[allow(unused_imports)]
+use acme_common::error::Error;
+#[allow(unused_imports)]
+use std::fs::File;
+#[allow(unused_imports)]
+use std::collections::HashMap;
+#[allow(unused_imports)]
+use std::collections::HashSet;
+#[allow(unused_imports)]
+use crate::config::HookType;
+#[allow(unused_imports)]
+use std::path::PathBuf;
+#[allow(unused_imports)]
+use std::env;
 use serde_json::{json, Value};
 
 fn s(v: &Value, k: &str) -> String {
